@@ -35,7 +35,7 @@ def build():
 """}, rewrites=[("T-LIFETIME", r"fn renew_certificate\(", "fn renew_certificate<'a__>("),
                  ("T-LIFETIME", r"certificate: &mut Certificate", "certificate: &'a__ mut Certificate"),
                  ("T-LIFETIME", r"\(&mut Certificate, AccountSync", "(&'a__ mut Certificate, AccountSync")],
-        at=[("before_stmt", "scheduling_retries += 1", 1, """
+        at=[("before_stmt_re", r"scheduling_retries\s*(?:\+=|=)[^=]", 2, """
                 proof {
                     let c0 = old(w).clock; let c1 = w.clock; let sr = scheduling_retries as int;
                     assert(sr * 60_000_000_000 + 60_000_000_000 <= c1 - c0) by (nonlinear_arith)
